@@ -12,6 +12,8 @@ open IrVerif.Passes
 #print axioms C05_lift_sub_inits
 #print axioms C05_toposort
 #print axioms C05_cse_skips
+#print axioms C05_pass_valid
+#print axioms C05_compose_valid
 #print axioms IrVerif.Inline.C05_inline_partial
 #print axioms IrVerif.Inline.C05_inline_nested_partial
 #print axioms IrVerif.Inline.C05_inline
